@@ -11,6 +11,10 @@ package bytecode
 //        S  stackCheckByteCode, arg = count -> S panic | ok | err
 //   O <mod|div> <kind1> <v1> <kind2> <v2> <divzero 0|1>  -> O <panic|divzero|typeerr|ok> <kind after data.Normalize | ->
 //        the two operands pushed on a fresh context, then moduloByteCode / divideByteCode
+//   X <rw|mx> <ops>  ops = comma list of L Lock, U Unlock, R RLock, N RUnlock, T TryLock, Y TryRLock on ONE fresh
+//        sync.RWMutex / sync.Mutex through callRWMutexMethod / callMutexMethod -> "XS" (flushed before the case) then
+//        "X <outcomes>"  outcomes = comma list of d done, n ErrMutexNotLocked, t/f the Try result, b blocked (the sequence
+//        stops there), e other error.  Go's "unlock of unlocked mutex" is a FATAL error: the process dies after "XS".
 //   A <isbyte 0|1> <n> <first> <last> -> A <panic|err|ok:len:first element> <same for GetSlice>
 //        GetSliceAsArray / GetSlice on an array holding 0..n-1
 // The stack slice holds exactly the listed values (len(c.stack) = number listed).
@@ -21,7 +25,9 @@ import (
 	"os"
 	"strconv"
 	"strings"
+	"sync"
 	"testing"
+	"time"
 
 	"github.com/tucats/ego/internal/errors"
 	"github.com/tucats/ego/internal/language/data"
@@ -253,6 +259,63 @@ func verifC07ValueOp(f []string) (s string) {
 	return f[0] + " ?"
 }
 
+
+func verifC07Mutex(kind string, ops []string) string {
+	var (
+		rw  sync.RWMutex
+		mu  sync.Mutex
+		out []string
+	)
+
+	names := map[string]string{"L": "Lock", "U": "Unlock", "R": "RLock", "N": "RUnlock", "T": "TryLock", "Y": "TryRLock"}
+
+	for _, o := range ops {
+		type res struct {
+			v   any
+			err error
+		}
+
+		ch := make(chan res, 1)
+
+		go func() {
+			var r res
+			if kind == "rw" {
+				r.v, _, r.err = callRWMutexMethod(&rw, names[o])
+			} else {
+				r.v, _, r.err = callMutexMethod(&mu, names[o])
+			}
+
+			ch <- r
+		}()
+
+		select {
+		case r := <-ch:
+			switch {
+			case r.err != nil && errors.Equals(r.err, errors.ErrMutexNotLocked):
+				out = append(out, "n")
+			case r.err != nil:
+				out = append(out, "e")
+			case r.v == true:
+				out = append(out, "t")
+			case r.v == false:
+				out = append(out, "f")
+			default:
+				out = append(out, "d")
+			}
+		case <-time.After(250 * time.Millisecond):
+			out = append(out, "b")
+
+			return strings.Join(out, ",")
+		}
+	}
+
+	if len(out) == 0 {
+		return "-"
+	}
+
+	return strings.Join(out, ",")
+}
+
 func TestVerifC07BC(t *testing.T) {
 	in, err := os.Open(os.Getenv("VERIF_IN"))
 	if err != nil {
@@ -274,7 +337,15 @@ func TestVerifC07BC(t *testing.T) {
 
 	for sc.Scan() {
 		f := strings.Fields(sc.Text())
-		if len(f) < 5 {
+		if len(f) < 3 {
+			continue
+		}
+
+		if f[0] == "X" && len(f) >= 3 {
+			fmt.Fprintln(w, "XS")
+			w.Flush()
+			fmt.Fprintln(w, "X "+verifC07Mutex(f[1], strings.Split(f[2], ",")))
+
 			continue
 		}
 
